@@ -577,12 +577,16 @@ fn expected_rows(total: usize, query: &str) -> Option<usize> {
     )
 }
 
+/// fleet sizes of the render phase
+const FLEETS: [usize; 5] = [0, 1, 3, 4, 13];
+
 pub fn run_render(ctx: &Ctx, rep: &Report) {
     let alpha = alphabet2();
     let depth = if ctx.thorough() { 7 } else { 4 };
     let mut total_states = 0u64;
     let mut total_trans = 0u64;
-    for total in [0usize, 1, 3, 4, 13] {
+    for total0 in FLEETS {
+        let total = total0;
         let s0 = St2 { total, core: St { n: 0, sel: Some(0), quit: false, search: false, sort: 3, asc: false, query: String::new(), width: 0 } };
         let mut seen: BTreeSet<St2> = BTreeSet::new();
         let mut frontier: Vec<(St2, Vec<String>)> = vec![(s0.clone(), vec![])];
@@ -597,16 +601,28 @@ pub fn run_render(ctx: &Ctx, rep: &Report) {
                     return;
                 }
                 let mut local = Vec::new();
-                for (name, ev) in &alpha {
+                // the UI events, and the environment's moves: between two events the table may have gained or lost
+                // aircraft (the snapshot and expiry tasks hold the same lock); "Fleet(n)" = the fleet becomes n
+                // aircraft, then the periodic tick redraws
+                let mut moves: Vec<(String, Event, usize)> = alpha.iter().map(|(n, e)| (n.clone(), *e, s.total)).collect();
+                for nt in FLEETS {
+                    if nt != s.total {
+                        moves.push((format!("Fleet({nt})"), Event::Tick(if s.core.width == 0 { 80 } else { s.core.width }), nt));
+                    }
+                }
+                for (name, ev, nt) in &moves {
                     // bound the query length (the only unbounded component)
                     if s.core.search && name.starts_with("Char(") && s.core.query.chars().count() >= 3 {
                         continue;
                     }
-                    let r = step2(s, *ev);
+                    let from = St2 { total: *nt, core: s.core.clone() };
+                    let r = step2(&from, *ev);
+                    let total = *nt;
+                    let jname = if name.starts_with("Fleet(") { "Tick(80)".to_string() } else { name.clone() };
                     tcount.fetch_add(1, std::sync::atomic::Ordering::Relaxed);
                     let mut p2 = path.clone();
                     p2.push(name.clone());
-                    let wit = json!({"kind": "render", "aircraft": total, "events": p2});
+                    let wit = json!({"kind": "render", "aircraft": total0, "events": p2});
                     match r {
                         Err(p) => {
                             let site = if p.starts_with("draw") { "draw" } else { "update" };
@@ -632,7 +648,7 @@ pub fn run_render(ctx: &Ctx, rep: &Report) {
                             b.n = 0;
                             a.sel = None;
                             b.sel = None;
-                            if let Some((class, what)) = judge(&a, name, &Ok(b)) {
+                            if let Some((class, what)) = judge(&a, &jname, &Ok(b)) {
                                 rep.violation(&format!("render:{class}"), what, wit.clone());
                             }
                             local.push((t, p2));
@@ -735,7 +751,15 @@ pub fn replay_render(w: &Value, rep: &Report) {
     let mut s = St2 { total, core: St { n: 0, sel: Some(0), quit: false, search: false, sort: 3, asc: false, query: String::new(), width: 0 } };
     let alpha = alphabet2();
     for name in w["events"].as_array().map(|a| a.iter().filter_map(|x| x.as_str()).collect::<Vec<_>>()).unwrap_or_default() {
-        let Some((_, ev)) = alpha.iter().find(|(n, _)| n == name) else { continue };
+        let fleet_ev;
+        let ev = if let Some(n) = name.strip_prefix("Fleet(").and_then(|x| x.strip_suffix(')')).and_then(|x| x.parse::<usize>().ok()) {
+            s.total = n;
+            fleet_ev = Event::Tick(if s.core.width == 0 { 80 } else { s.core.width });
+            &fleet_ev
+        } else {
+            let Some((_, ev)) = alpha.iter().find(|(n, _)| n == name) else { continue };
+            ev
+        };
         match step2(&s, *ev) {
             Ok(t) => {
                 if let Some(i) = t.core.sel {
